@@ -20,6 +20,7 @@ type Sys struct {
 	// LastSteps is how many of them belong to the last Apply call.
 	Steps     []Op
 	LastSteps int
+	frozenKey string
 }
 
 // NewSys opens a fresh world with the reference model at its initial state.
@@ -76,9 +77,17 @@ func (s *Sys) Last() (Op, error, bool) {
 	return s.Ops[s.Hist[len(s.Hist)-1]], s.Errs[len(s.Errs)-1], true
 }
 
+// Key implements seqx.Sys. FreezeKey computes it early for oracles that modify the world while
+// judging it (seqx asks for the key after Check; the instance is discarded afterwards).
 func (s *Sys) Key() string {
+	if s.frozenKey != "" {
+		return s.frozenKey
+	}
 	return s.W.Dump().Canon() + fmt.Sprintf("#%d#", s.W.Epoch()) + s.M.Key()
 }
+
+// FreezeKey fixes the state key at the current state.
+func (s *Sys) FreezeKey() { s.frozenKey = ""; s.frozenKey = s.Key() }
 
 func (s *Sys) Check() (string, string) { return s.Oracle(s) }
 
